@@ -298,10 +298,18 @@ def decide_build(pid, spec, b, tier, oc, seed):
         oc.undecided.append('extraction: %s' % e)
         return
     oc.parts.extend(infos)
+    for inf in infos:
+        if inf.get('trusted_residue_changed'):
+            # the text that a trusted rewrite REPLACES (the detect / AtomicPtr / transmute glue of `unsafe_ifunc!`, rule X6,
+            # assumption A2) is not the pinned one: the assumption no longer describes the code, so nothing that goes
+            # through the dispatcher is decided by the proof; the replayer, which runs the real dispatcher, cross-checks
+            oc.undecided.append('%s: proof-script mismatch: source text of part %s that the extraction leaves out under a stated assumption '
+                                '(the dispatch glue of `unsafe_ifunc!` replaced by rule X6 / A2, or the three `memrchrN_iter` Rev adapters) '
+                                'differs from the pinned text; the assumption is not validated for this tree' % (bname, inf['part']))
     path = os.path.join(WORK, '%s_%s.rs' % (pid, bname))
     open(path, 'w').write(text)
     lines = text.split('\n')
-    changed = any(i['changed_vs_pinned'] for i in infos)
+    changed = any(i['changed_vs_pinned'] or i.get('trusted_residue_changed') for i in infos)
     have = set(units.PARTS[pn]['mod'] for pn in units.BUILDS[bname]['parts']) | {'vbase'}
     mods = [m for m in (b.get('modules') or []) if any(h == m or h.startswith(m + '::') for h in have)] or None
     b = dict(b, modules=mods)
@@ -754,7 +762,7 @@ def main():
             log('VIOLATION property=%s replay=%s%s' % (pid, path, tail))
         return 1
     if oc.undecided:
-        changed = any(i.get('changed_vs_pinned') for i in oc.parts)
+        changed = any(i.get('changed_vs_pinned') or i.get('trusted_residue_changed') for i in oc.parts)
         if changed and any(('verus rejected' in u or 'proof-script mismatch' in u or 'resource limit' in u) for u in oc.undecided):
             # the verifier could not decide the CHANGED tree: a concrete failing execution of the real code is still a
             # sound alarm (DESIGN 2.5 cross-check); without one the verdict stays undecided
